@@ -415,11 +415,11 @@ PROBES = {"D11": [("parity", c) for c in _D11_PROBES]}
 
 SUBS = [
     Sub("parity", check_parity, strategy=_parity_cases, quick=192, thorough=4000, shards=12, shrink_quick=False,
-        floors={"nt": 0.12, "all_pairs_occur": 1.0, "predictors>=3": 0.25, "ratio<1": 0.1, "grid>=20": 0.2,
+        floors={"nt": 0.097, "all_pairs_occur": 1.0, "predictors>=3": 0.25, "ratio<1": 0.1, "grid>=20": 0.2,
                 "m:DemographicParity": 0.08, "m:TruePositiveRateParity": 0.08, "m:FalsePositiveRateParity": 0.08,
                 "m:EqualizedOdds": 0.08, "m:ErrorRateParity": 0.08, "groups4": 0.1, "selected_not_min_error": 0.1}),
     Sub("parity_missing_pair", check_parity_missing, strategy=_missing_cases, quick=40, thorough=800, shards=4,
-        shrink_quick=False, floors={"missing_pair": 1.0, "predictors>=3": 0.15}),
+        shrink_quick=False, floors={"missing_pair": 1.0, "predictors>=3": 0.05}),
     Sub("bgl", check_bgl, strategy=_bgl_cases, quick=60, thorough=1200, shards=6, shrink_quick=False,
-        floors={"bgl": 1.0, "labels_constant": 0.02, "nt": 0.25, "predictors>=3": 0.4, "groups3": 0.1, "groups4": 0.1}),
+        floors={"bgl": 1.0, "labels_constant": 0.02, "nt": 0.2, "predictors>=3": 0.367, "groups3": 0.1, "groups4": 0.1}),
 ]
